@@ -5,7 +5,7 @@ from collections.abc import Sequence
 from typing import Generic, TypeVar, cast
 
 import hugr.model as model
-from hugr.hugr.base import Hugr, Node
+from hugr.hugr.base import Hugr, Node, NodeData
 from hugr.hugr.node_port import InPort, OutPort
 from hugr.ops import (
     CFG,
@@ -19,6 +19,7 @@ from hugr.ops import (
     Const,
     Custom,
     DataflowBlock,
+    DataflowOp,
     ExitBlock,
     FuncDecl,
     FuncDefn,
@@ -58,8 +59,12 @@ class ModelExport:
         """Export the node with the given node id."""
         node_data = self.hugr[node]
 
-        inputs = [self.link_name(InPort(node, i)) for i in range(node_data._num_inps)]
-        outputs = [self.link_name(OutPort(node, i)) for i in range(node_data._num_outs)]
+        # a node lists the value ports of its signature (the control ports for basic
+        # blocks): static function / constant inputs are not ports in the model, and
+        # value ports are listed whether or not they are connected
+        num_inps, num_outs = _num_model_ports(node_data)
+        inputs = [self.link_name(InPort(node, i)) for i in range(num_inps)]
+        outputs = [self.link_name(OutPort(node, i)) for i in range(num_outs)]
         meta = []
 
         # Export JSON metadata
@@ -401,15 +406,13 @@ class ModelExport:
                 case Input() as op:
                     source_types = model.List([type.to_model() for type in op.types])
                     sources = [
-                        self.link_name(OutPort(child, i))
-                        for i in range(child_data._num_outs)
+                        self.link_name(OutPort(child, i)) for i in range(len(op.types))
                     ]
 
                 case Output() as op:
                     target_types = model.List([type.to_model() for type in op.types])
                     targets = [
-                        self.link_name(InPort(child, i))
-                        for i in range(child_data._num_inps)
+                        self.link_name(InPort(child, i)) for i in range(len(op.types))
                     ]
 
                 case _:
@@ -556,6 +559,22 @@ class ModelExport:
                 return op.val.to_model()
             case op:
                 return None
+
+
+def _num_model_ports(node_data: NodeData) -> tuple[int, int]:
+    """Number of input and output ports a node has in the model."""
+    match node_data.op:
+        case Call() as op:
+            return len(op.instantiation.input), len(op.instantiation.output)
+        case LoadConst() | LoadFunc():
+            return 0, 1
+        case DataflowBlock() as op:
+            return 1, len(op.sum_ty.variant_rows)
+        case DataflowOp() as op:
+            sig = op.outer_signature()
+            return len(sig.input), len(sig.output)
+        case _:
+            return node_data._num_inps, node_data._num_outs
 
 
 def _mangle_name(node: Node, name: str) -> str:
